@@ -35,6 +35,9 @@ pub enum Insertion {
     Attr { at: u16, local: String, value: String },
     /// foreign element nested inside leaf element number `at`, after its character data
     InLeaf { at: u16, local: String, text: String },
+    /// foreign element that binds a second namespace name of its own to the URL of extension number `which`
+    /// (mod count) declared on the root element
+    Alias { at: u16, which: u8, local: String },
 }
 
 #[derive(Clone, Serialize, Deserialize)]
@@ -176,6 +179,17 @@ fn apply(xml: &str, ins: &[Insertion]) -> String {
                 e.push_str(&format!("</{PREFIX}:{local}>\n"));
                 edits.push((pos, e));
             }
+            Insertion::Alias { at, which, local } => {
+                // the namespace URLs declared on the root element, copied verbatim (still escaped)
+                let root_tag = xml.find("<e57Root").map(|p| &xml[p..p + xml[p..].find('>').unwrap_or(0)]).unwrap_or("");
+                let urls: Vec<&str> = root_tag.split("xmlns:").skip(1).filter_map(|d| d.split('"').nth(1)).collect();
+                if sc.points.is_empty() || urls.is_empty() {
+                    continue;
+                }
+                let pos = sc.points[*at as usize % sc.points.len()];
+                let url = urls[*which as usize % urls.len()];
+                edits.push((pos, format!("<zzalias{which}:{local} xmlns:zzalias{which}=\"{url}\" type=\"String\">alias</zzalias{which}:{local}>\n")));
+            }
             Insertion::InLeaf { at, local, text } => {
                 if sc.leaf_ends.is_empty() {
                     continue;
@@ -250,6 +264,9 @@ fn local_name(s: &mut Src) -> String {
 }
 
 fn insertion(s: &mut Src) -> Insertion {
+    if s.chance(1, 8) {
+        return Insertion::Alias { at: s.u16(), which: s.byte(), local: local_name(s) };
+    }
     if s.chance(1, 6) {
         return Insertion::InLeaf { at: s.u16(), local: local_name(s), text: s.pick(&["en", "7", "", "x y"]).to_string() };
     }
@@ -303,7 +320,7 @@ impl Check for C18 {
          and attributes of a registered foreign namespace: local names drawn 4 in 5 from the standard E57 vocabulary (guid, name, points, data3D, \
          vectorChild, pose, colorLimits, ...), arbitrary type attributes (incl. Blob / CompressedVector / Structure with nested children), at any \
          sibling position inside any Structure / Vector outside a prototype, nested inside leaf elements after their character data, plus foreign attributes (vfx:type, vfx:fileOffset, ...) on standard \
-         start tags, prefixed or unprefixed with the foreign namespace declared as default namespace on the element itself. Oracle: everything the reader reports about standard content (root fields, every descriptor, raw points, blobs, simple points) \
+         start tags, prefixed or unprefixed with the foreign namespace declared as default namespace on the element itself, or elements that bind a second namespace name of their own to the URL of one of the file's registered extensions. Oracle: everything the reader reports about standard content (root fields, every descriptor, raw points, blobs, simple points) \
          is equal with and without the insertions. Second part: prototypes with extension records whose names may equal standard names must be \
          reported as Unknown{prefix,name} with round-tripping values, standard attributes unaffected. Non-trivial: an inserted element whose local \
          name is in the standard vocabulary, or an extension record named like a standard attribute."
@@ -338,6 +355,7 @@ impl Check for C18 {
                             }
                         }
                         Insertion::InLeaf { .. } => v.nt("foreign_element_nested_in_a_leaf"),
+                        Insertion::Alias { .. } => v.nt("foreign_element_binding_another_name_to_an_extension_url"),
                         Insertion::Attr { .. } => v.label("foreign_attribute"),
                     }
                 }
@@ -403,12 +421,13 @@ impl Check for C18 {
                                 own_ns: *own_ns,
                             },
                             Insertion::InLeaf { at, local, text } => Insertion::InLeaf { at: *at, local: format!("q_{local}"), text: text.clone() },
+                            Insertion::Alias { at, which, local } => Insertion::Alias { at: *at, which: *which, local: format!("q_{local}") },
                             a => a.clone(),
                         })
                         .collect();
                     let caused_by_local_names = insertions.iter().any(|i| match i {
                         Insertion::Elem { local, child, .. } => VOCAB.contains(&local.as_str()) || child.as_ref().map(|c| VOCAB.contains(&c.as_str())).unwrap_or(false),
-                        Insertion::InLeaf { local, .. } => VOCAB.contains(&local.as_str()),
+                        Insertion::InLeaf { local, .. } | Insertion::Alias { local, .. } => VOCAB.contains(&local.as_str()),
                         _ => false,
                     })
                         && matches!(guard(|| write_with(program, &neutral)), Ok(Ok(ref b)) if verdict(b).is_ok());
